@@ -29,7 +29,7 @@ pub struct Skeleton {
     pub kinds: Vec<[Kind; 3]>,
     /// 0 inside creator, 1 after return, 2 twice, 3 created in a loop and invoked out of order
     pub invoke: usize,
-    /// assignment menu 0..4
+    /// assignment menu 0..5
     pub sets: usize,
 }
 
@@ -91,6 +91,14 @@ fn setter(level: usize, phase: usize, name: &str) -> Cell {
     list(vec![sym("set!"), sym(name), call("cons", vec![quote(sym(&format!("s{}{}", level + 1, phase))), sym(name)])])
 }
 
+/// the assignment performed by a procedure that never reads the variable: ((lambda (v) (set! x v)) (cons 'tag x))
+fn setter_via_writer(level: usize, phase: usize, name: &str) -> Cell {
+    list(vec![
+        list(vec![sym("lambda"), list(vec![sym("v")]), list(vec![sym("set!"), sym(name), sym("v")])]),
+        call("cons", vec![quote(sym(&format!("w{}{}", level + 1, phase))), sym(name)]),
+    ])
+}
+
 fn set_menu(menu: usize, phase: usize) -> Vec<usize> {
     // which names are assigned in this phase (0 = before closure creation, 1 = after)
     match (menu, phase) {
@@ -101,6 +109,8 @@ fn set_menu(menu: usize, phase: usize) -> Vec<usize> {
         (2, 1) => vec![0, 1, 2],
         (3, 0) => vec![0, 2],
         (3, 1) => vec![1, 2],
+        // menu 4: like 2, but every assignment is made by a closure that only writes the variable
+        (4, 1) => vec![0, 1, 2],
         _ => vec![],
     }
 }
@@ -123,7 +133,7 @@ fn level_lambda(sk: &Skeleton, level: usize) -> Cell {
     let last = level + 1 == sk.kinds.len();
     if last {
         for i in set_menu(sk.sets, 1) {
-            body.push(setter(level, 1, NAMES[i]));
+            body.push(if sk.sets == 4 { setter_via_writer(level, 1, NAMES[i]) } else { setter(level, 1, NAMES[i]) });
         }
         for n in NAMES {
             body.push(rd(level, 1, n));
@@ -134,7 +144,7 @@ fn level_lambda(sk: &Skeleton, level: usize) -> Cell {
         let inner = level_lambda(sk, level + 1);
         let mut let_body: Vec<Cell> = vec![];
         for i in set_menu(sk.sets, 1) {
-            let_body.push(setter(level, 1, NAMES[i]));
+            let_body.push(if sk.sets == 4 { setter_via_writer(level, 1, NAMES[i]) } else { setter(level, 1, NAMES[i]) });
         }
         for n in NAMES {
             let_body.push(rd(level, 1, n));
@@ -337,7 +347,7 @@ pub fn run(ctx: &Ctx, rep: &mut Report) {
         // depth 1: everything
         for a in 0..nv {
             for inv in 0..4 {
-                for sets in 0..4 {
+                for sets in 0..5 {
                     run_one(Skeleton { kinds: vec![valid[a as usize]], invoke: inv, sets }, rep, &mut idx);
                 }
             }
@@ -347,10 +357,10 @@ pub fn run(ctx: &Ctx, rep: &mut Report) {
             for b in 0..nv {
                 for inv in 0..4 {
                     if ctx.quick() {
-                        let sets = ((a * 7 + b * 3 + inv as u64 + ctx.seed) % 4) as usize;
+                        let sets = ((a * 7 + b * 3 + inv as u64 + ctx.seed) % 5) as usize;
                         run_one(Skeleton { kinds: vec![valid[a as usize], valid[b as usize]], invoke: inv, sets }, rep, &mut idx);
                     } else {
-                        for sets in 0..4 {
+                        for sets in 0..5 {
                             run_one(Skeleton { kinds: vec![valid[a as usize], valid[b as usize]], invoke: inv, sets }, rep, &mut idx);
                         }
                     }
@@ -365,7 +375,7 @@ pub fn run(ctx: &Ctx, rep: &mut Report) {
                 for b in 0..nv {
                     for c in 0..nv {
                         let h = a * 31 + b * 17 + c * 5 + ctx.seed;
-                        run_one(Skeleton { kinds: vec![valid[a as usize], valid[b as usize], valid[c as usize]], invoke: (h % 4) as usize, sets: ((h / 4) % 4) as usize }, rep, &mut idx);
+                        run_one(Skeleton { kinds: vec![valid[a as usize], valid[b as usize], valid[c as usize]], invoke: (h % 4) as usize, sets: ((h / 4) % 5) as usize }, rep, &mut idx);
                     }
                 }
             }
@@ -378,7 +388,7 @@ pub fn run(ctx: &Ctx, rep: &mut Report) {
         let mut rng: Rng = ctx.rng("c02", index);
         let depth = if ctx.quick() && index % 2 == 0 { 3 } else { 4 };
         let kinds: Vec<[Kind; 3]> = (0..depth).map(|_| valid[rng.usize(valid.len())]).collect();
-        let sk = Skeleton { kinds, invoke: rng.usize(4), sets: rng.usize(4) };
+        let sk = Skeleton { kinds, invoke: rng.usize(4), sets: rng.usize(5) };
         if check(&sk, rep, (ctx.shard, index), verbose) {
             rep.nontrivial(hash_str(&describe(&sk)));
             rep.count("sampled_deep_skeletons", 1);
